@@ -22,7 +22,7 @@ Say(tid, v) == PrintT(<<"VERDICT", tid, v>>)
 St0(N) == [taint |-> [vn \in VarNames |-> {}], cc |-> [vn \in VarNames |-> 0],
            stamp |-> [vn \in VarNames |-> [L \in LoopIds |-> 0]], it |-> [L \in LoopIds |-> 0],
            last |-> [i \in 1..N |-> NoObj], linf |-> [i \in 1..N |-> NoT], hot |-> {}, stmt |-> 0, matched |-> {},
-           tact |-> {}, tmut |-> [T \in LoopIds |-> {}]]
+           tact |-> {}, wact |-> {}, jact |-> {}, tmut |-> [T \in LoopIds |-> {}], brk |-> [T \in LoopIds |-> {}]]
 
 Known2(a, b) == a # NoObj /\ b # NoObj
 MaxOf(S) == IF S = {} THEN 0 ELSE CHOOSE m \in S : \A k \in S : k <= m
@@ -43,9 +43,9 @@ TupleAddSource(st, nd, ev) ==
     /\ Known2(st.last[nd.ch[1]], st.last[nd.ch[2]])
     /\ Dev_TupleAddDropsLeft(st.last[nd.ch[1]], st.last[nd.ch[2]], ev.v, ev.i)
 
-\* a call passed a variadic tuple[E, ...] argument through to a result whose type has an unpacked segment
+\* a call passed a variadic tuple[E, ...] argument through to a result whose type is a shaped tuple
 VariadicSource(st, nd, ev) ==
-    /\ nd.k = "Call" /\ ev.j /\ HasManyT(ev.i)
+    /\ nd.k = "Call" /\ ev.j /\ HasShapedTuple(ev.i)
     /\ \E a \in SeqToSet(nd.ch) : /\ st.last[a] # NoObj /\ st.last[a].c = "tuple" /\ st.last[a] \in SubObjs(ev.v)
                                    /\ st.linf[a].k = "generic" /\ st.linf[a].c = "tuple" /\ Len(st.linf[a].args) = 1
 
@@ -81,7 +81,9 @@ AfterStore(st, s) ==
                   !.cc = [vn \in VarNames |-> IF vn \in names THEN c ELSE @[vn]],
                   !.stamp = [vn \in VarNames |-> IF vn \in names THEN st.it ELSE @[vn]],
                   \* containers mutated in place inside a try / with block that is still running
-                  !.tmut = [T \in LoopIds |-> IF s.via # "" /\ T \in st.tact THEN @[T] \cup names ELSE @[T]]]
+                  !.tmut = [T \in LoopIds |-> IF s.via # "" /\ T \in st.tact THEN @[T] \cup names ELSE @[T]],
+                  \* variables assigned inside a with block that contains a break / continue statement
+                  !.brk = [T \in LoopIds |-> IF T \in st.jact THEN @[T] \cup names ELSE @[T]]]
 
 \* An exception left the block T (try body / with body) and was caught (handler entered, finally entered while the
 \* exception is in flight, suppressed by the context manager): the mutations the block performed before the exception
@@ -90,6 +92,8 @@ AfterStore(st, s) ==
 Caught(st, T) == IF T \in st.tact
                  THEN [st EXCEPT !.taint = [vn \in VarNames |-> IF vn \in st.tmut[T] THEN @[vn] \cup {KeyMutLost} ELSE @[vn]]]
                  ELSE st
+
+WithLeft(st, T) == [st EXCEPT !.taint = [vn \in VarNames |-> IF vn \in st.brk[T] THEN @[vn] \cup {KeyBreakSupp} ELSE @[vn]]]
 
 Step(st, ev, o) ==
     CASE ev.k = "e" -> AfterEval(st, ev, o.nodes[ev.n])
@@ -104,8 +108,21 @@ Step(st, ev, o) ==
       \* follows: the state it continues with describes the other paths only.
       [] ev.k = "te" -> [st EXCEPT !.tact = @ \cup {ev.loop}, !.tmut[ev.loop] = {}]
       [] ev.k = "tn" -> [st EXCEPT !.tact = @ \ {ev.loop}]
-      [] ev.k \in {"xh", "wq"} -> [Caught(st, ev.loop) EXCEPT !.tact = @ \ {ev.loop}]
+      [] ev.k = "xh" -> [Caught(st, ev.loop) EXCEPT !.tact = @ \ {ev.loop}]
       [] ev.k = "xf" -> Caught(st, ev.loop)
+      \* with statement ev.loop: entered (we; wj: its block contains a break / continue statement) / its body completed
+      \* (wn) / the statement was left normally (wq; without a preceding wn: the context manager suppressed an exception).
+      \* The body of a with statement whose context manager may suppress exceptions is analysed in a scope of its own that
+      \* is thrown away (stacked_scopes.suppressing_subscope): only the definition nodes created inside are re-applied
+      \* after the block.  In-place mutations (constraints) are not re-applied; and when a break / continue statement
+      \* occurs inside the block, its LEAVES_LOOP marker is one of the "definition nodes created inside", which makes the
+      \* re-applied scope count as a scope that left a loop: all assignments of the block are dropped.
+      [] ev.k \in {"we", "wj"} -> [st EXCEPT !.tact = @ \cup {ev.loop}, !.wact = @ \cup {ev.loop}, !.tmut[ev.loop] = {},
+                                              !.jact = IF ev.k = "wj" THEN @ \cup {ev.loop} ELSE @ \ {ev.loop}, !.brk[ev.loop] = {}]
+      [] ev.k \in {"wn", "wq"} -> IF ev.loop \in st.wact
+                                  THEN [WithLeft(Caught(st, ev.loop), ev.loop) EXCEPT !.tact = @ \ {ev.loop}, !.wact = @ \ {ev.loop},
+                                                                                    !.jact = @ \ {ev.loop}]
+                                  ELSE st
       [] ev.k = "xs" -> [st EXCEPT !.matched = @ \ {ev.loop}]
       [] ev.k = "xm" -> [st EXCEPT !.matched = @ \cup {ev.loop}]
       [] ev.k = "xb" -> IF ev.loop \in st.matched
@@ -125,6 +142,7 @@ Classify(tid, i, st, ev, nd) ==
        ELSE IF KeyUnmodelled \in tn THEN Say(tid, "dev:" \o KeyUnmodelled \o ":" \o ToString(i))
        ELSE IF KeyExtendKnown \in tn THEN Say(tid, "dev:" \o KeyExtendKnown \o ":" \o ToString(i))
        ELSE IF KeyMutLost \in tn THEN Say(tid, "dev:" \o KeyMutLost \o ":" \o ToString(i))
+       ELSE IF KeyBreakSupp \in tn THEN Say(tid, "dev:" \o KeyBreakSupp \o ":" \o ToString(i))
        ELSE IF KeyAbsTruthy \in tn THEN Say(tid, "dev:" \o KeyAbsTruthy \o ":" \o ToString(i))
        ELSE IF ev.i = Never THEN Say(tid, "viol:NeverIsNeverReached:" \o ToString(i))
        ELSE Say(tid, "viol:Sound:" \o ToString(i))
